@@ -120,6 +120,55 @@ def family_case(ctx, shapes, assigns):
     return pol(eh), pol(eb), args, k
 
 
+def hole_case(ctx, shapes, assigns):
+    """a diverging / logging operand as the right operand of an INNER && or || of a family shape, under an assignment
+    that does not reach it; the shape as a value, as an if condition, or next to another short circuit"""
+    g = cg.Gen(ctx.rng.fork(), 2, ffi=True, todo_rate=10 ** 9)
+    g.uses_ffi = True
+    small = [('EVar', 'x'), ('EVar', 'y'), ('ENot', ('EVar', 'x')), ('EBin', 'BEq', ('EVar', 'a'), ('EVar', 'b')),
+             ('EBin', 'BNe', ('EVar', 'a'), ('EVar', 'b')), ('EBin', 'BGe', ('EVar', 'a'), ('EVar', 'b'))]
+    for _ in range(200):
+        if ctx.rng.chance(2, 3):
+            # the core nestings: && inside ||, || inside &&, the hole under the INNER operator, on either side of the outer one
+            inner = (ctx.rng.choice(['EAnd', 'EOr']), ctx.rng.choice(small), cg.HOLE)
+            outer = ctx.rng.choice(['EAnd', 'EOr'])
+            h = (outer, ctx.rng.choice(small), inner) if ctx.rng.chance(2, 3) else (outer, inner, ctx.rng.choice(small))
+            c = ctx.rng.choice([0, 0, 3])
+        else:
+            s = ctx.rng.choice(shapes)
+            hs = cg.bool_holes(s)
+            if not hs:
+                continue
+            h = ctx.rng.choice(hs)
+            c = ctx.rng.below(4)
+        other = ctx.rng.choice(shapes[:45])
+        if c == 1:
+            h = ('EOr', other, h)
+        elif c == 2:
+            h = ('EAnd', other, h)
+        ok = []
+        for a in assigns:
+            try:
+                ok.append((a, cg.bool_eval_lazy(h, a)))
+            except cg.HoleReached:
+                pass
+        if not ok:
+            continue
+        args, v = ctx.rng.choice(ok)
+        env = [{}, dict(cg.BOOL_PARAMS)]
+        hz = ctx.rng.choice([('ETodo',), ('ETodo',)] + hazards(g, cc.T_BOOL, env))
+        def pol(fill):
+            e = cg.fill_hole(h, fill)
+            if c == 3:
+                e = ('EIf', e, ('EBlock', [], ('EBool', True)), ('EBlock', [], ('EBool', False)))
+            p = dict(g.finish_policy())
+            p['funs'] = [{'name': 'main', 'params': cg.BOOL_PARAMS, 'ret': cc.T_BOOL, 'body': [('SReturn', e)]}]
+            p['uses_ffi'] = True
+            return p
+        return pol(hz), pol(('EBool', not v)), args, 9
+    return family_case(ctx, shapes, assigns)
+
+
 def no_returns(x):
     if isinstance(x, tuple) and x and x[0] in ('SReturn', 'EReturn', 'SCheck'):
         return False
@@ -147,8 +196,8 @@ def run(ctx):
     fam_shapes = cg.bool_depth1() + cg.bool_depth2()
     fam_shapes += [('ENot', x) for x in cg.bool_depth2()] if ctx.thorough else cg.bool_depth3_sample(ctx.rng, 400)
     assigns = cg.bool_assignments()
-    for _ in range(900 if ctx.thorough else 60):
-        cases.append(family_case(ctx, fam_shapes, assigns))
+    for i in range(1500 if ctx.thorough else 150):
+        cases.append(family_case(ctx, fam_shapes, assigns) if i % 3 == 0 else hole_case(ctx, fam_shapes, assigns))
     lines = []
     for (ph, pb, args, k) in cases:
         lines.append(cc.run_line(ph, "fn", "main", 0, args))
@@ -159,7 +208,8 @@ def run(ctx):
         ctx.oblige("harness:run", False, err)
         return
     oracle_fail, runs, l1, by_kind, exits = [], [], [], {}, {}
-    kinds = KINDS + ["if statement: untaken block", "match on a boolean shape: untaken arm"]
+    kinds = KINDS + ["if statement: untaken block", "match on a boolean shape: untaken arm",
+                     "right operand of an inner && / || not reached"]
     for i, (ph, pb, args, k) in enumerate(cases):
         rh, rb, cl = res[3 * i], res[3 * i + 1], res[3 * i + 2]
         if rh.startswith("compile-err") or rb.startswith("compile-err") or rh == "panic" or rh.startswith("parse"):
